@@ -116,11 +116,44 @@ def action_variants(program, action):
 
 
 def parser_grammar(program, body):
-    """Grammar node of a `fn parse_x(input) -> IResult<..>`: the receiver of its Parser::parse call."""
+    """Grammar node of a `fn parse_x(input) -> IResult<..>`: the receiver of its Parser::parse call.  A body that applies several
+    parsers one after the other, each to what the previous one left (`let (input, a) = p1.parse(input)?; let (input, b) =
+    p2(input)?; ..`), is the sequence of them - the same grammar as the tuple `(p1, p2, ..).parse(input)`."""
     S = T.Slicer(body, program)
     cs = Q.calls(body, "nom::Parser::parse") + Q.calls(body, "Parser<I>>::parse")
     if not cs:
         raise AnchorMissing("no nom Parser::parse call in " + body.path)
+    steps = []
+    for blk, t in cs:
+        a = Q.call_args(body, S, blk, t)
+        if len(a) == 2:
+            steps.append((blk, interp(program, a[0]), a[1]))
+    seen = {blk for blk, _n, _i in steps}
+    for blk, t in body.calls():
+        cal = program.bodies.get(callee_of(t))
+        if blk in seen or cal is None or len(t["args"]) != 1 or cal.kind not in ("Fn", "AssocFn"):
+            continue
+        if "IResult" in (cal.local_ty(0) or "") or "nom::Err" in (cal.local_ty(0) or ""):
+            steps.append((blk, ("sub", cal.path), Q.call_args(body, S, blk, t)[0]))
+    if len(steps) > 1:
+        blocks = {blk for blk, _n, _i in steps}
+        prev = {}
+        for blk, _n, inp in steps:
+            srcs = {x[3] for x in T.walk(inp) if x[0] == "call" and len(x) > 3 and x[3] in blocks and x[3] != blk}
+            # the nearest earlier step: the one no other source of this input is fed by
+            prev[blk] = srcs
+        order = []
+        left = dict(prev)
+        while left:
+            ready = [b_ for b_, srcs in left.items() if not (srcs - set(order))]
+            if len(ready) != 1:
+                order = None
+                break
+            order.append(ready[0])
+            del left[ready[0]]
+        if order is not None and all(prev[b_] for b_ in order[1:]) and not prev[order[0]]:
+            nodes = {blk: n for blk, n, _i in steps}
+            return ("seq", [nodes[b_] for b_ in order])
     blk, t = cs[0]
     a = Q.call_args(body, S, blk, t)
     return interp(program, a[0])
